@@ -18,7 +18,9 @@ EVEN_FUNCS = [
     "amu2LFSfapprox", "amu2LFSfapprox_non_tan_beta_resummed", "tan_alpha",
 ]
 # contributions whose invariance rests on the eigen-solver's conventions: reported, not decided
-NOT_DECIDED = ["amu1LChi0", "amu1LChipm", "amu2LChi0Photonic", "amu2LChipmPhotonic", "amu2LaSferm", "amu2LaCha"]
+NOT_DECIDED = ["amu2LaSferm", "amu2LaCha"]
+# exact contributions that read the neutralino / chargino / smuon mixing matrices: decided by covariance (P2-P4)
+MIXING_FUNCS = ["amu1LChi0", "amu1LChipm", "amu2LChi0Photonic", "amu2LChipmPhotonic"]
 
 # loop functions stay opaque; Iabc is opened one level (it squares its arguments: Iabc(a,b,c) = Ixyz(a^2,b^2,c^2)),
 # so its evenness in each argument is derived, not assumed
@@ -36,8 +38,8 @@ def run(F, R, tier):
         "violations. Contributions that read a mixing matrix are listed as not decided.")
     R.assumptions = ["masses (eigenvalues) are invariant under the flip; only mixing matrices are treated as unknown",
                      "loop functions are called with the arguments shown (even in each argument where they square them)"]
-    R.undecided = ["exact one-loop, photonic and 2L(a) contributions: invariance rests on how the eigen-solver "
-                   "absorbs the signs into ZN, UM, UP, ZM (%s)" % ", ".join(NOT_DECIDED)]
+    R.undecided = ["2L(a) contributions (%s): they read the stop / sbottom / stau and Higgs mixing; not folded" % ", ".join(NOT_DECIDED),
+                   "exactly degenerate masses, where the decomposition leaves a rotation (not only row phases) open"]
     R.rule("P1", "contribution is even under the joint sign flip", len(EVEN_FUNCS) - 2)
     E = Evaluator(F, inline=lambda n, g: not LOOPFN.match(n), max_depth=14)
     n_done = 0
@@ -61,3 +63,157 @@ def run(F, R, tier):
                     "is %s under (mu, M_i, A_f) -> -(mu, M_i, A_f): %s" % (p, culprit), key="P1|" + inst)
     R.analysed["functions_decided"] = n_done
     R.analysed["not_decided_by_design"] = NOT_DECIDED
+    R.guard(_covariance, F, R)
+
+
+# ---- exact contributions: covariance of the mass matrices + invariance of the formulas -------------------------------
+FLIPPED_FIELDS = ("Mu", "MassB", "MassWB", "MassG", "TYu", "TYd", "TYe", "Au", "Ad", "Ae")
+
+
+def _flip_params(p):
+    """polynomial with every sign-flipped Lagrangian parameter negated"""
+    from .poly import Poly
+    mapping = {}
+    for a in p.atoms():
+        b = a
+        while isinstance(b, tuple) and b and b[0] == "elem":
+            b = b[1]
+        if isinstance(b, tuple) and b and b[0] == "field" and b[2] in FLIPPED_FIELDS:
+            mapping[a] = -Poly.atom(a)
+    return p.subs(mapping) if mapping else p
+
+
+def _covariance(F, R):
+    from fractions import Fraction
+    from .poly import Poly, Rat, to_rat, NotPolynomial
+    from .eigenalg import CAlg, IMAG, Undecided
+    from .rules_c03 import _fold, _is_complex_factory, LOOP as LOOP3
+    from .rules_c04 import code_value, as_entries, CLS as CLS4
+    from .rules_c20 import _reduce_roots
+
+    def zero(p):
+        for _ in range(6):
+            p = _reduce_roots(p)
+        return p.is_zero()
+
+    # -- P2: the mass matrices transform covariantly under the flip -----------------------------------------------------
+    R.rule("P2", "under the joint sign flip the mass matrices transform covariantly: M_chi0 -> (iS) M_chi0 (iS), S = diag(1,1,-1,-1); "
+                 "X_cha -> (i s) X (i s), s = diag(1,-1); M^2_smuon -> t M^2 t, t = diag(1,-1); m^2_sneutrino invariant "
+                 "(entry-wise polynomial identities of the code's mass-matrix functions)", 4)
+    E4 = Evaluator(F, inline=lambda n, g: True, max_depth=8)
+    SECT = {"Chi": ([1, 1, -1, -1], -1), "Cha": ([1, -1], -1), "Sm": ([1, -1], 1), "SvmL": ([1], 1)}
+    for nm, (sg, overall) in SECT.items():
+        try:
+            f, v = code_value(F, E4, "get_mass_matrix_" + nm)
+            ents, (nr, nc) = as_entries(v)
+            bad = None
+            for (i, k), t in sorted(ents.items()):
+                r = to_rat(t)
+                flipped = Rat(_flip_params(r.n), _flip_params(r.d))
+                want = Rat(r.n.scale(overall * sg[i] * sg[k]), r.d)
+                if not zero(flipped.n * want.d - want.n * flipped.d):
+                    bad = "entry (%d,%d): %s" % (i, k, show(t)[:80])
+                    break
+            R.check("P2", bad is None, "mass matrix %s" % nm, F.loc(f),
+                    "the %s mass matrix does not transform covariantly under (mu, M_i, A_f) -> -(mu, M_i, A_f): %s; the flipped point "
+                    "has a different spectrum" % (nm, bad), key="P2|" + nm)
+        except (NotPolynomial, AnalysisBroken) as ex:
+            R.soft_broken("P2 %s: %s" % (nm, str(ex)[:120]))
+
+    # -- P3 / P4: the formulas ----------------------------------------------------------------------------------------------------
+    R.rule("P3", "exact one-loop and photonic two-loop contributions are invariant under the substitution the covariance induces on the "
+                 "decomposition outputs (ZN -> ZN iS, UM -> UM is, UP -> UP is, ZM -> ZM t; masses and the resummed Yukawa unchanged)", 4)
+    R.rule("P4", "... and do not depend on the row phases the decomposition contracts leave open (ZN -> diag(+-1) ZN, ZM -> diag(+-1) ZM, "
+                 "UM -> Phi UM together with UP -> Phi^* UP): the result is a function of the model, not of the eigen-solver's conventions", 4)
+    only = lambda rn: rn.startswith("gm2calc::MSSMNoFV")
+    I = Poly.atom(IMAG)
+
+    def mix_atoms(p):
+        out = {}
+        for a in p.atoms():
+            conj = False
+            b = a
+            if isinstance(b, tuple) and b and b[0] == "cbar":
+                conj, b = True, b[1]
+            if isinstance(b, tuple) and b and b[0] == "cplx":
+                b = b[1]
+            if isinstance(b, tuple) and b and b[0] == "elem" and b[1][0] == "field" and b[1][2] in ("ZN", "UM", "UP", "ZM") \
+                    and all(x[0] == "num" for x in b[2:]):
+                out[a] = (b[1][2], tuple(int(x[1]) for x in b[2:]), conj)
+        return out
+
+    def substitute(r, fn):
+        atoms = {}
+        atoms.update(mix_atoms(r.n))
+        atoms.update(mix_atoms(r.d))
+        mp = {}
+        for a, (mat, idx, conj) in atoms.items():
+            k = fn(mat, idx, conj)
+            if k is not None:
+                mp[a] = Poly.atom(a) * k
+        return Rat(r.n.subs(mp), r.d.subs(mp)) if mp else r
+
+    def induced(mat, idx, conj):
+        s4, s2 = [1, 1, -1, -1], [1, -1]
+        if mat == "ZN":
+            return I.scale(-s4[idx[1]] if conj else s4[idx[1]])
+        if mat in ("UM", "UP"):
+            return I.scale(-s2[idx[1]] if conj else s2[idx[1]])
+        if mat == "ZM":
+            return Poly.const(s2[idx[1]])
+        return None
+
+    def cancel_pairs(p, a, b):
+        """phi * phibar = 1"""
+        out = Poly()
+        for m, c in p.t.items():
+            d = dict(m)
+            k = min(d.get(a, 0), d.get(b, 0))
+            if k:
+                d[a] -= k
+                d[b] -= k
+            mono = tuple(sorted(((x, e) for x, e in d.items() if e), key=lambda y: repr(y[0])))
+            out = out + Poly({mono: c})
+        return out
+
+    for nm in MIXING_FUNCS:
+        try:
+            f, s, ft = _fold(F, "gm2calc::" + nm, ("sym", "model"), only)
+            alg = CAlg(_is_complex_factory(ft))
+            r = alg.rat(s)
+        except (NotPolynomial, Undecided, AnalysisBroken) as ex:
+            R.soft_broken("P3 %s: %s" % (nm, str(ex)[:140]))
+            continue
+        used = sorted({v[0] for v in list(mix_atoms(r.n).values()) + list(mix_atoms(r.d).values())})
+        r2 = substitute(Rat(_flip_params(r.n), _flip_params(r.d)), induced)      # explicit parameters flip as well
+        ok = zero(r2.n * r.d - r.n * r2.d)
+        R.check("P3", ok, "%s (reads %s)" % (nm, ", ".join(used)), F.loc(f),
+                "%s changes under ZN -> ZN iS, UM/UP -> UM/UP is, ZM -> ZM t, i.e. under the joint sign flip of (mu, M1, M2, A_mu): a sign or "
+                "a complex conjugation is inconsistent between the couplings" % nm, key="P3|" + nm)
+        # residual freedom of the contracts
+        bad = None
+        for mat, rows in (("ZN", 4), ("ZM", 2)):
+            for i in range(rows):
+                r3 = substitute(r, lambda m_, idx, cj, mat=mat, i=i: Poly.const(-1) if (m_ == mat and idx[0] == i) else None)
+                if not zero(r3.n * r.d - r.n * r3.d):
+                    bad = "the sign of row %d of %s" % (i, mat)
+                    break
+            if bad:
+                break
+        if bad is None:
+            for k in range(2):
+                ph, phb = ("sym", "phi%d" % k), ("sym", "phibar%d" % k)
+
+                def phase(m_, idx, cj, k=k, ph=ph, phb=phb):
+                    if idx[0] != k or m_ not in ("UM", "UP"):
+                        return None
+                    fwd = (m_ == "UM") != cj          # UM -> phi UM, conj(UM) -> phibar conj(UM); UP -> phibar UP, conj(UP) -> phi conj(UP)
+                    return Poly.atom(ph if fwd else phb)
+                r3 = substitute(r, phase)
+                res = cancel_pairs(r3.n * r.d - r.n * r3.d, ph, phb)
+                if not zero(res):
+                    bad = "the phase of row %d of (UM, UP)" % k
+                    break
+        R.check("P4", bad is None, "%s: independent of the row phases of %s" % (nm, ", ".join(used)), F.loc(f),
+                "%s depends on %s, which the decomposition contract leaves arbitrary: the result changes with the eigen-solver's "
+                "conventions" % (nm, bad), key="P4|" + nm)
